@@ -802,4 +802,197 @@ theorem outcome_event_unique {μ : Type} : ∀ (log : List (Event μ)), (outIds 
       exact (List.nodup_cons.mp hnd).1 (hmem e1 h1' ho1)
     · exact ih hnd' e1 h1' e2 h2' id ho1 ho2
 
+/-! ### liveness while the transceiver stays powered on -/
+
+/-- the clock keeps running, transceiver `j` stays powered on, the clock is not adjusted (no jumps)
+and no exception leaves a tick, throughout the history `ops` from `w` -/
+def Steady (j : Nat) : World → List Op → Prop
+  | w, [] => w.clkRunning = true ∧ runningOf w j = true
+  | w, op :: ops => w.clkRunning = true ∧ runningOf w j = true ∧ (∀ fn, op ≠ .jump fn) ∧
+      (op = .tick → (step w op).exc = none) ∧ Steady j (step w op).world ops
+
+/-- number of ticks in a history -/
+def ticks : List Op → Nat
+  | [] => 0
+  | .tick :: ops => ticks ops + 1
+  | _ :: ops => ticks ops
+
+theorem Steady.head {j : Nat} {w : World} {ops : List Op} (h : Steady j w ops) :
+    w.clkRunning = true ∧ runningOf w j = true := by
+  cases ops with
+  | nil => exact h
+  | cons op ops => exact ⟨h.1, h.2.1⟩
+
+/-- a queued message is still queued (same id) after a data datagram to any transceiver -/
+theorem ghost_data_mem (w0 : World) (ops : List Op) (j : Nat) (h0 : queueOf w0 j = []) (i : Nat) (d : List Nat)
+    {p : Nat × Trxd.TxMsg} (hp : p ∈ (ghost w0 ops j).ids.zip (queueOf (run w0 ops).1 j)) :
+    p ∈ (ghost w0 (ops ++ [Op.data i d]) j).ids.zip (queueOf (run w0 (ops ++ [Op.data i d])).1 j) := by
+  have hl := (ghost_inv w0 ops j h0).lock
+  rw [ghost_snoc, run_snoc]
+  simp only [ghostStep, step]
+  rcases (recvDataMsg_queue (run w0 ops).1 i d j).2 with ⟨hq, -⟩ | ⟨-, msg, -, hq⟩
+  · rw [hq, List.drop_length]; exact hp
+  · rw [hq, List.drop_left]
+    simp only []
+    rw [List.zip_append hl]
+    exact List.mem_append_left _ hp
+
+/-- a TRXC datagram after which `j` is (still) running leaves `j`'s queue and bookkeeping alone -/
+theorem ghost_ctrl_running (w0 : World) (ops : List Op) (j : Nat) (i sp : Nat) (d : List Nat)
+    (hrun : runningOf (run w0 (ops ++ [Op.ctrl i sp d])).1 j = true) :
+    queueOf (run w0 (ops ++ [Op.ctrl i sp d])).1 j = queueOf (run w0 ops).1 j ∧
+    ghost w0 (ops ++ [Op.ctrl i sp d]) j = ghost w0 ops j := by
+  rw [run_snoc] at hrun ⊢
+  have hq : queueOf (step (run w0 ops).1 (Op.ctrl i sp d)).world j = queueOf (run w0 ops).1 j := by
+    rcases (step_ctrl_effect (run w0 ops).1 i sp d).cases j with ⟨hq, -⟩ | ⟨hq, -⟩ | ⟨-, hr⟩
+    · exact hq
+    · exact hq
+    · rw [hr] at hrun; cases hrun
+  refine ⟨hq, ?_⟩
+  rw [ghost_snoc]
+  simp only [ghostStep, hq]
+  rw [if_neg (fun hh => hh.2 hh.1)]
+
+
+theorem hyperframe_eq : Gen.World.hyperframe = 2715648 := rfl
+
+/-- A burst for frame `m` that is due or still ahead (cyclically) at clock `c` is emitted at the tick
+with frame number `m`, which is the `((m − c) mod 2715648) + 1`-th tick from now. -/
+theorem resolve_future (w0 : World) (j : Nat) (h0 : queueOf w0 j = []) (p : Nat × Trxd.TxMsg) (m : Nat)
+    (hm : p.2.fn = some (m : Int)) (hmH : m < 2715648) :
+    ∀ (ops2 ops : List Op) (c : Nat), Steady j (run w0 ops).1 ops2 →
+      p ∈ (ghost w0 ops j).ids.zip (queueOf (run w0 ops).1 j) →
+      (run w0 ops).1.clkSrc = some c → c < 2715648 →
+      (m = c ∨ ((c : Int) - m) % 2715648 ≥ 1357824) →
+      ticks ops2 ≥ (((m : Int) - c) % 2715648).toNat + 1 →
+      Event.emitted p.1 m ∈ (ghost w0 (ops ++ ops2) j).log := by
+  intro ops2
+  induction ops2 with
+  | nil => intro ops c _ _ _ _ _ ht; simp [ticks] at ht
+  | cons op ops2 ih =>
+    intro ops c hst hp hc hcH hfut ht
+    obtain ⟨hr, hrun, hnj, hx, hst'⟩ := hst
+    rw [show ops ++ op :: ops2 = (ops ++ [op]) ++ ops2 by simp]
+    rw [← run_snoc] at hst'
+    cases op with
+    | data i d =>
+      refine ih (ops ++ [Op.data i d]) c hst' (ghost_data_mem w0 ops j h0 i d hp) ?_ hcH hfut ht
+      rw [run_snoc, (step_data_clk _ i d).1]; exact hc
+    | ctrl i sp d =>
+      obtain ⟨hq, hg⟩ := ghost_ctrl_running w0 ops j i sp d hst'.head.2
+      refine ih (ops ++ [Op.ctrl i sp d]) c hst' (by rw [hq, hg]; exact hp) ?_ hcH hfut ht
+      rw [run_snoc]
+      rcases step_ctrl_clk (run w0 ops).1 i sp d with h | ⟨h, -⟩
+      · rw [h]; exact hc
+      · rw [hr] at h; cases h
+    | jump fn => exact absurd rfl (hnj fn)
+    | tick =>
+      have hx' := hx rfl
+      obtain ⟨e1, -, -, e4⟩ := ghost_tick_msg w0 ops j h0 hr hc hrun hx' hp
+      obtain ⟨c1, -, c3⟩ := classify_arith c p.2 m hm
+      by_cases hmc : m = c
+      · exact ghost_log_mono w0 _ ops2 j (hmc ▸ e1.mpr (c1.mpr (by rw [hmc])))
+      · have hfut' : ((c : Int) - m) % 2715648 ≥ 1357824 := by
+          rcases hfut with h | h
+          · exact absurd h hmc
+          · exact h
+        have hw : classify c p.2 = .wait := c3.mpr ⟨by omega, hfut'⟩
+        have hclk := (ghost_tick_complete w0 ops j h0 hr hc hrun hx').2.2
+        rw [hyperframe_eq] at hclk
+        simp only [ticks] at ht
+        refine ih (ops ++ [Op.tick]) ((c + 1) % 2715648) hst' (e4 hw) hclk (Nat.mod_lt _ (by decide)) ?_ ?_
+        · omega
+        · omega
+
+/-- A burst whose frame has passed at clock `c` is reported stale at the very next tick. -/
+theorem resolve_passed (w0 : World) (j : Nat) (h0 : queueOf w0 j = []) (p : Nat × Trxd.TxMsg) (m : Int)
+    (hm : p.2.fn = some m) :
+    ∀ (ops2 ops : List Op) (c : Nat), Steady j (run w0 ops).1 ops2 →
+      p ∈ (ghost w0 ops j).ids.zip (queueOf (run w0 ops).1 j) →
+      (run w0 ops).1.clkSrc = some c →
+      (m ≠ c ∧ ((c : Int) - m) % 2715648 < 1357824) →
+      ticks ops2 ≥ 1 →
+      Event.stale p.1 c ∈ (ghost w0 (ops ++ ops2) j).log := by
+  intro ops2
+  induction ops2 with
+  | nil => intro ops c _ _ _ _ ht; simp [ticks] at ht
+  | cons op ops2 ih =>
+    intro ops c hst hp hc hpas ht
+    obtain ⟨hr, hrun, hnj, hx, hst'⟩ := hst
+    rw [show ops ++ op :: ops2 = (ops ++ [op]) ++ ops2 by simp]
+    rw [← run_snoc] at hst'
+    cases op with
+    | data i d =>
+      refine ih (ops ++ [Op.data i d]) c hst' (ghost_data_mem w0 ops j h0 i d hp) ?_ hpas ht
+      rw [run_snoc, (step_data_clk _ i d).1]; exact hc
+    | ctrl i sp d =>
+      obtain ⟨hq, hg⟩ := ghost_ctrl_running w0 ops j i sp d hst'.head.2
+      refine ih (ops ++ [Op.ctrl i sp d]) c hst' (by rw [hq, hg]; exact hp) ?_ hpas ht
+      rw [run_snoc]
+      rcases step_ctrl_clk (run w0 ops).1 i sp d with h | ⟨h, -⟩
+      · rw [h]; exact hc
+      · rw [hr] at h; cases h
+    | jump fn => exact absurd rfl (hnj fn)
+    | tick =>
+      obtain ⟨-, e2, -, -⟩ := ghost_tick_msg w0 ops j h0 hr hc hrun (hx rfl) hp
+      obtain ⟨-, c2, -⟩ := classify_arith c p.2 m hm
+      exact ghost_log_mono w0 _ ops2 j (e2.mpr (c2.mpr hpas))
+
+/-- A burst with an out-of-range frame number `m ≥ 2715648` can never be due; it is reported stale
+at the latest at the tick whose frame number is `m mod 2715648`. -/
+theorem resolve_out_of_range (w0 : World) (j : Nat) (h0 : queueOf w0 j = []) (p : Nat × Trxd.TxMsg) (m : Int)
+    (hm : p.2.fn = some m) (hmH : m ≥ 2715648) :
+    ∀ (ops2 ops : List Op) (c : Nat), Steady j (run w0 ops).1 ops2 →
+      p ∈ (ghost w0 ops j).ids.zip (queueOf (run w0 ops).1 j) →
+      (run w0 ops).1.clkSrc = some c → c < 2715648 →
+      ticks ops2 ≥ ((m - c) % 2715648).toNat + 1 →
+      ∃ fn : Nat, fn < 2715648 ∧ Event.stale p.1 fn ∈ (ghost w0 (ops ++ ops2) j).log := by
+  intro ops2
+  induction ops2 with
+  | nil => intro ops c _ _ _ _ ht; simp [ticks] at ht
+  | cons op ops2 ih =>
+    intro ops c hst hp hc hcH ht
+    obtain ⟨hr, hrun, hnj, hx, hst'⟩ := hst
+    rw [show ops ++ op :: ops2 = (ops ++ [op]) ++ ops2 by simp]
+    rw [← run_snoc] at hst'
+    cases op with
+    | data i d =>
+      refine ih (ops ++ [Op.data i d]) c hst' (ghost_data_mem w0 ops j h0 i d hp) ?_ hcH ht
+      rw [run_snoc, (step_data_clk _ i d).1]; exact hc
+    | ctrl i sp d =>
+      obtain ⟨hq, hg⟩ := ghost_ctrl_running w0 ops j i sp d hst'.head.2
+      refine ih (ops ++ [Op.ctrl i sp d]) c hst' (by rw [hq, hg]; exact hp) ?_ hcH ht
+      rw [run_snoc]
+      rcases step_ctrl_clk (run w0 ops).1 i sp d with h | ⟨h, -⟩
+      · rw [h]; exact hc
+      · rw [hr] at h; cases h
+    | jump fn => exact absurd rfl (hnj fn)
+    | tick =>
+      have hx' := hx rfl
+      obtain ⟨-, e2, -, e4⟩ := ghost_tick_msg w0 ops j h0 hr hc hrun hx' hp
+      obtain ⟨-, c2, c3⟩ := classify_arith c p.2 m hm
+      by_cases hpas : ((c : Int) - m) % 2715648 < 1357824
+      · exact ⟨c, hcH, ghost_log_mono w0 _ ops2 j (e2.mpr (c2.mpr ⟨by omega, hpas⟩))⟩
+      · have hw : classify c p.2 = .wait := c3.mpr ⟨by omega, by omega⟩
+        have hclk := (ghost_tick_complete w0 ops j h0 hr hc hrun hx').2.2
+        rw [hyperframe_eq] at hclk
+        simp only [ticks] at ht
+        refine ih (ops ++ [Op.tick]) ((c + 1) % 2715648) hst' (e4 hw) hclk (Nat.mod_lt _ (by decide)) ?_
+        omega
+
+/-- every accepted message carries a frame number (any value the four octets encode) -/
+theorem parseMsg_fn {data : List Nat} {msg : Trxd.TxMsg} (h : Trxd.TxMsg.parseMsg data = .ok msg) :
+    ∃ fn : Nat, msg.fn = some (fn : Int) := by
+  unfold Trxd.TxMsg.parseMsg at h
+  split at h
+  · cases h
+  next ver tn fn _ =>
+  split at h
+  · cases h
+  split at h
+  · cases h
+  split at h
+  · cases h
+  split at h <;> (cases h; exact ⟨fn, rfl⟩)
+
 end OsmoVerif.World
